@@ -29,7 +29,7 @@ func init() { core.Register(prop{}) }
 func (prop) ID() string    { return "C07" }
 func (prop) Level() string { return "exploration" }
 func (prop) Rule() string {
-	return "scenarios = pipeline stream|from()|log('in') [|eval|where] -> 1-2 outputs drawn from {influxDBOut (recording fake client; buffer 1/10/1000/5000, flushInterval 10ms/1h), a UDF (in-process echo agent behind in-memory pipes) followed by a gated sink, alert with a named topic + recording handler (fast/slow), alert with .log() on its anonymous topic, plain sink, kapacitorLoopback into a second task} x 1 200-4 000 points with unique ids (more than one 1 000-slot edge buffer) x output gated shut so that a backlog exists when the stop is requested, the gate opened before / 30 ms after the stop call x stop kind {StopTask, DeleteTask, daemon sequence Drain+StopTasks+Close (+alert service Close)}; failure variant: a node in the middle of the pipeline panics at the k-th point while writers continue. " +
+	return "scenarios = pipeline stream|from()|log('in') [|eval|where] -> 1-2 outputs drawn from {influxDBOut (recording fake client; buffer 1/10/1000/5000, flushInterval 10ms/1h), a UDF (in-process echo agent behind in-memory pipes) followed by a gated sink, alert with a named topic + recording handler (fast/slow), alert with .log() on its anonymous topic, plain sink, kapacitorLoopback into a second task} x 1 200-4 000 points with unique ids (more than one 1 000-slot edge buffer; back-pressure scenarios: 9 000-12 000 points, so that the writer itself is blocked on full buffers when the stop comes) x output gated shut so that a backlog exists when the stop is requested, the gate opened before / 30 ms after the stop call x stop kind {StopTask, DeleteTask, daemon sequence Drain+StopTasks+Close (+alert service Close)}; failure variant: a node in the middle of the pipeline panics at the k-th point while writers continue. " +
 		"Oracle: conservation by id - every point that was acknowledged AND had entered the task (seen at the sink under from(); for the daemon sequence: every acknowledged point) is at every output exactly once, per-group order kept; termination - the stop call returns (30 s watchdog with all gates open), afterwards no goroutine with kapacitor frames remains beyond the census taken before StartTask, et.Wait() has returned; failure variant: the task ends with the node's error, stop returns, writers are never blocked, census returns to the baseline. " +
 		"Non-trivial: a scenario whose backlog at the moment of the stop call (points accepted but not yet at the output) was >= 100"
 }
@@ -37,6 +37,7 @@ func (prop) Assumptions() []string {
 	return []string{
 		"a point counts as accepted by a task once it has passed from() (StopTask/DeleteTask) or once its write was acknowledged (daemon sequence, which drains the ingest stream first)",
 		"a stop call still running 30 s after every gate was opened is reported as a hang together with the goroutine dump; shorter waits are never judged",
+		"back-pressure scenarios (9 000-12 000 points) run with topic-buffer-length 20 000: a topic handler that is more than topic-buffer-length events behind loses events by design, stop or no stop",
 		"kapacitorLoopback is only combined with StopTask of the upstream task (the daemon sequence closes the ingest stream the loopback writes to)",
 	}
 }
@@ -67,6 +68,14 @@ func (prop) Cases(tier string, seed uint64) []core.Case {
 	}
 	for i := 0; i < nr; i++ {
 		cs = append(cs, core.Case{ID: fmt.Sprintf("race-%d", i), Kind: "stop", Seed: seed*7019 + uint64(i), N: 2, Race: true})
+	}
+	// back-pressure: more points than all buffers hold, so the writer itself is blocked when the stop comes
+	nb := 4
+	if tier == "thorough" {
+		nb = 40
+	}
+	for i := 0; i < nb; i++ {
+		cs = append(cs, core.Case{ID: fmt.Sprintf("backpressure-%d", i), Kind: "stop", Seed: seed*7027 + uint64(i), N: 3, Params: map[string]interface{}{"bp": true, "daemon": i%2 == 0}})
 	}
 	return cs
 }
@@ -180,7 +189,17 @@ func runStop(x *core.Ctx, r *core.Rng) {
 	openBefore := r.Chance(0.4)
 	mid := r.Pick([]string{"", "|eval(lambda: \"id\" + 0).as('id2').keep()", "|where(lambda: \"id\" >= 0)"})
 	nout := r.Range(1, 2)
-	env, err := kit.NewEnv(kit.EnvOpts{Scratch: scratch})
+	topicBuffer := 0
+	if x.Case.PBool("bp") {
+		n = 9000 + r.Intn(3000)
+		if x.Case.PBool("daemon") {
+			stopKind, openBefore = "daemon", false
+		}
+		// a topic drops events by design once a handler is topic-buffer-length (5000) events
+		// behind; that overflow policy is not what this property is about
+		topicBuffer = 20000
+	}
+	env, err := kit.NewEnv(kit.EnvOpts{Scratch: scratch, TopicBuffer: topicBuffer})
 	if err != nil {
 		x.Inconclusive(err.Error())
 		return
@@ -350,6 +369,11 @@ func runStop(x *core.Ctx, r *core.Rng) {
 	}
 	backlog := inAtStop - atOutput
 	x.MaxCount("backlog_at_stop", int64(backlog))
+	select {
+	case <-wdone:
+	default:
+		x.Count("stops_with_a_blocked_writer", 1)
+	}
 	// the stop
 	stopDone := make(chan error, 1)
 	go func() {
